@@ -102,15 +102,23 @@ Subst(e, n, t) ==
    "s" signed, "u" unsigned, "x" mixed (outside the claim). A constant operand whose top bit is
    clear reads the same either way and takes the other operand's reading. *)
 CstTopClear(t) == t.k = "cst" /\ Msb(t.v) = 0
-Lsf(e) == IF Has(e, "lsf") THEN e.lsf ELSE e.l.sf
-Rsf(e) == IF Has(e, "rsf") THEN e.rsf ELSE e.r.sf
+(* the flag an operand shows: 0/1, or 2 = not unambiguous. A conditional whose own flag differs from
+   the flags of its branches is not an unambiguous declaration (amoco evaluates it to the chosen
+   branch, flag included) *)
+RECURSIVE ShownFlag(_)
+ShownFlag(t) == IF t.k = "tst"
+                THEN (IF ShownFlag(t.l) = t.sf /\ ShownFlag(t.r) = t.sf THEN t.sf ELSE 2)
+                ELSE t.sf
+Lsf(e) == IF Has(e, "lsf") THEN e.lsf ELSE ShownFlag(e.l)
+Rsf(e) == IF Has(e, "rsf") THEN e.rsf ELSE ShownFlag(e.r)
 (* lc / rc (generator side): the operand OBJECT was a constant with its top bit clear when the
    operator was applied *)
 Lc(e) == IF Has(e, "lc") THEN e.lc = 1 ELSE CstTopClear(e.l)
 Rc(e) == IF Has(e, "rc") THEN e.rc = 1 ELSE CstTopClear(e.r)
 Sg(e) ==
   LET lsf == Lsf(e) rsf == Rsf(e)
-  IN IF lsf = rsf THEN (IF lsf = 1 THEN "s" ELSE "u")
+  IN IF lsf = 2 \/ rsf = 2 THEN "x"
+     ELSE IF lsf = rsf THEN (IF lsf = 1 THEN "s" ELSE "u")
      ELSE IF Lc(e) THEN (IF rsf = 1 THEN "s" ELSE "u")
      ELSE IF Rc(e) THEN (IF lsf = 1 THEN "s" ELSE "u")
      ELSE "x"
@@ -119,7 +127,7 @@ SignedOps == {"<", "<=", ">", ">=", "**", "/", "%"}
 
 (* a shift/rotate amount as a natural saturated at cap; -1 when the amount operand is flagged
    signed and negative (an ambiguous amount, outside the claim) *)
-Amount(sf, v, cap) == IF sf = 1 /\ Msb(v) = 1 THEN -1 ELSE SatNat(v, cap)
+Amount(sf, v, cap) == IF sf # 0 /\ Msb(v) = 1 THEN -1 ELSE SatNat(v, cap)
 
 BinOp(e, a, b, D) ==
   LET s == e.s w == Len(a) sg == Sg(e) IN
